@@ -1,5 +1,6 @@
 // govc:pkg window
 // govc:bound grouping tuples of arity 1..3 over one scalar type per column: strings from a pool with separator-like characters ('|', ',', unit separator, backslash, NUL, the NULL markers), NULL and missing (22^2 / 11^3 tuples), and small integers; all pairs of tuples compared
+// govc:also C02 C12
 // Bounded stand-in (NOT a proof): the key derivation of counting, session and global windows: two rows get the same key iff their grouping tuples are equal.
 package window
 
